@@ -83,7 +83,8 @@ META = {
         "through package helpers the text passes through (parameters bound to the carrying arguments; tuple elements, record "
         "fields and `return helper(...)` delegation tracked individually, so that e.g. dedent() of the option block does not "
         "count against the body) - uses whose "
-        "result is only tested are ignored - and the Jinja environment used for substitutions (built in the function, a helper or "
+        "result is only tested, or whose statement cannot reach the nested parse on any path (a branch that returns first), "
+        "are ignored - and the Jinja environment used for substitutions (built in the function, a helper or "
         "an instance attribute or a module constant; plain or sandboxed) has no autoescape/finalize; removing exactly a leading "
         "byte order mark is not a change of the text, and the included file's text must pass such a removal (or be read as "
         "utf-8-sig), as docutils' input layer does for the document itself; every statement that takes a ':'-line off the front of "
@@ -2843,6 +2844,20 @@ def _text_conserved(rep: Report, fi: FunctionInfo, seeds: set[str], sinks: list[
         kind, names = _destination(n, sinks)
         ret_ = next((a for a in ancestors(n) if isinstance(a, ast.Return)), None)
         if kind == "sink" or (kind == "names" and names & need) or (kind == "return" and ret_ is not None and any(s_ is ret_.value for s_ in sinks)):
+            # the changed value must be able to reach the sink at all: a statement on a branch that leaves the function
+            # before the nested parse (e.g. the literal / code branches of the include) changes text that is never parsed
+            if kind == "names":
+                try:
+                    cfg_t = get_cfg(fi)
+                    st_n = cfg_t.stmt_of(n)
+                    sink_sts = []
+                    for s_ in sinks:
+                        if hasattr(s_, "_parent"):
+                            sink_sts.append(cfg_t.stmt_of(s_))
+                    if sink_sts and not any(ss is st_n or ss in cfg_t.reachable_from(st_n) for ss in sink_sts):
+                        continue
+                except Unsupported:
+                    pass
             bad.append(n)
     # helpers the text passes through on its way to the sink
     if depth < 2:
